@@ -11,9 +11,13 @@ import (
 type ImportProg struct {
 	Mods  []ImportMod  `json:"mods"`
 	Main  []ImportStmt `json:"main"`
-	After []ImportStmt `json:"after"`          // run in the same session after main, even if main raised
-	Path  []string     `json:"path"`           // sys.path directories (lib0, lib1)
-	Late  []ImportMod  `json:"late,omitempty"` // modules whose files appear only at run time (fs_add) or live in a directory that enters sys.path later
+	After []ImportStmt `json:"after"` // run in the same session after main, even if main raised
+	Path  []string     `json:"path"`  // sys.path directories (lib0, lib1)
+	// other directory entries named like a module, next to its source file:
+	// "dir:lib0/m1" (a directory without __init__.py: not a package) or
+	// "file:lib0/m1" (a file without extension): `import m1` still means m1.py
+	Decoys []string    `json:"decoys,omitempty"`
+	Late   []ImportMod `json:"late,omitempty"` // modules whose files appear only at run time (fs_add) or live in a directory that enters sys.path later
 }
 
 type ImportMod struct {
@@ -141,6 +145,17 @@ func GenImport(r *simrt.Rand, faultsOK bool) *ImportProg {
 			other = "lib0"
 		}
 		p.Mods = append(p.Mods, ImportMod{Name: src.Name, Dir: other, Body: []ImportStmt{{K: "code", V: 999, ID: next()}}})
+	}
+	if r.Chance(1, 4) {
+		used := map[string]bool{}
+		for k := 0; k < 1+r.Intn(2); k++ {
+			m := p.Mods[r.Intn(len(p.Mods))]
+			kind := []string{"dir:", "file:"}[r.Intn(2)]
+			if !used[m.Dir+"/"+m.Name] {
+				used[m.Dir+"/"+m.Name] = true
+				p.Decoys = append(p.Decoys, kind+m.Dir+"/"+m.Name)
+			}
+		}
 	}
 	if faultsOK && r.Chance(1, 5) {
 		k := r.Intn(len(p.Mods))
